@@ -54,6 +54,14 @@ def _parse_worker_stdout(text):
     return viols, counters
 
 
+def _norm(msg):
+    """strip run-specific numbers (borrow tags, allocation ids, addresses) from a report line"""
+    msg = re.sub(r"<\d+>", "<tag>", msg)
+    msg = re.sub(r"alloc\d+", "alloc", msg)
+    msg = re.sub(r"0x[0-9a-fA-F]+", "0x..", msg)
+    return msg
+
+
 def _first_repo_frame(text):
     m = re.search(r"(/repo/src/[^\s:]+:\d+)", text)
     return m.group(1) if m else "<no frame in /repo>"
@@ -96,7 +104,7 @@ def _run_miri(here, leg, seed):
         elif rc != 0:
             if "Undefined Behavior" in se or "error: unsupported operation" in se or "memory leaked" in se or "error:" in se:
                 msg = [l for l in se.splitlines() if l.startswith("error")]
-                viols.append({"t": "violation", "sub": "sanitizer.miri", "sig": "miri: %s @ %s" % ((msg[0] if msg else "error")[:140], _first_repo_frame(se)),
+                viols.append({"t": "violation", "sub": "sanitizer.miri", "sig": "miri: %s @ %s" % (_norm(msg[0] if msg else "error")[:140], _first_repo_frame(se)),
                               "regime": regime, "case": i, "profile": "mon", "seed": seed,
                               "detail": {"tool": "miri", "flags": MIRIFLAGS, "stderr_tail": se[-2500:]}})
             else:
@@ -140,7 +148,7 @@ def _run_asan(here, leg, seed):
             counters[k] = counters.get(k, 0) + x
         if "AddressSanitizer" in se:
             first = [l for l in se.splitlines() if "ERROR: AddressSanitizer" in l]
-            viols.append({"t": "violation", "sub": "sanitizer.asan", "sig": "asan: %s @ %s" % ((first[0] if first else "report")[:140], _first_repo_frame(se)),
+            viols.append({"t": "violation", "sub": "sanitizer.asan", "sig": "asan: %s @ %s" % (_norm(first[0] if first else "report")[:140], _first_repo_frame(se)),
                           "regime": "shard", "case": s, "profile": "monrel", "seed": seed, "py": True,
                           "detail": {"tool": "asan", "stderr_tail": se[-2500:]}})
         elif p.returncode != 0:
@@ -176,7 +184,7 @@ def _run_valgrind(here, leg, seed):
             counters[k] = counters.get(k, 0) + x
         if rc == 88 or "== Invalid" in se or "uninitialised" in se:
             first = [l for l in se.splitlines() if "Invalid" in l or "uninitialised" in l or "Conditional jump" in l]
-            viols.append({"t": "violation", "sub": "sanitizer.memcheck", "sig": "memcheck: %s @ %s" % ((first[0] if first else "error")[:140], _first_repo_frame(se)),
+            viols.append({"t": "violation", "sub": "sanitizer.memcheck", "sig": "memcheck: %s @ %s" % (_norm(first[0] if first else "error")[:140], _first_repo_frame(se)),
                           "regime": regime, "case": i, "profile": "mon", "seed": seed,
                           "detail": {"tool": "valgrind memcheck", "stderr_tail": se[-2500:]}})
         elif rc is None:
@@ -187,6 +195,19 @@ def _run_valgrind(here, leg, seed):
             clean += 1
     return {"summary": {"tool": "valgrind memcheck", "cases_clean": clean, "cases": len(leg["cases"]), "observed": counters},
             "violations": viols, "inconclusive": inconcl}
+
+
+def replay(here, ev):
+    """re-run the single case of a recorded sanitizer event under the same tool"""
+    tool = ev["detail"].get("tool", "")
+    prop = ev["prop"]
+    seed = int(ev.get("seed", 1))
+    if tool == "miri":
+        return _run_miri(here, {"prop": prop, "cases": [(ev["regime"], ev["case"])]}, seed)
+    if tool.startswith("valgrind"):
+        return _run_valgrind(here, {"prop": prop, "cases": [(ev["regime"], ev["case"])]}, seed)
+    name = [k for k, v in LEGS.items() if v["tool"] == "asan" and v["prop"] == prop]
+    return _run_asan(here, LEGS[name[0]], seed)
 
 
 def run(here, name, pid, seed):
